@@ -418,7 +418,11 @@ OnOut(h, pkt) ==
       h1c == IF d.st # "ok" /\ Len(h1a.v) > Len(h0.v) /\ pkt[1] \div 16 = CONNECT /\ h.cfg.haswill
                 /\ ~ReqPropsOk(h.cfg.will.props, CtxWill)
              THEN Viol(Tick(h1b, "C19"), "C19", "a will with illegal properties was accepted and sent") ELSE h1b
-      h1 == IF d.st # "ok" /\ Len(h1a.v) > Len(h0.v) THEN [C17Owed(h, h1c) EXCEPT !.taint = 2] ELSE h1a
+      \* C04: something that is no packet went out while an acknowledgement is owed -- the owed PUBACK / PUBREC /
+      \* PUBCOMP did not reach the wire whole
+      h1d == IF d.st # "ok" /\ Len(h1a.v) > Len(h0.v) /\ h.aw < Len(h.owed)
+             THEN Viol(Tick(h1c, "C04"), "C04", "an undecodable packet was sent while an acknowledgement is owed") ELSE h1c
+      h1 == IF d.st # "ok" /\ Len(h1a.v) > Len(h0.v) THEN [C17Owed(h, h1d) EXCEPT !.taint = 2] ELSE h1a
       h2 == Check(h1, (h.wn = 0) = (pkt[1] \div 16 = CONNECT), "C01",
                   "CONNECT must be the first and only the first packet on a transport")
       \* D2: a disconnect() whose future was dropped after its DISCONNECT had reached the wire
@@ -454,7 +458,9 @@ DrainOut(h) ==
            rest == SubSeq(h.wtail, f.len + 1, Len(h.wtail))
        IN DrainOut(OnOut([h EXCEPT !.wtail = rest], pkt))
   ELSE IF f.st = "bad"
-  THEN C17Owed(h, Viol([h EXCEPT !.wtail = << >>, !.taint = 2], "C01", "outbound byte stream cannot be framed"))
+  THEN LET a == Viol([h EXCEPT !.wtail = << >>, !.taint = 2], "C01", "outbound byte stream cannot be framed")
+       IN C17Owed(h, IF h.aw < Len(h.owed)
+                     THEN Viol(Tick(a, "C04"), "C04", "an undecodable packet was sent while an acknowledgement is owed") ELSE a)
   ELSE h
 
 ---------------------------------------------------------------------------
@@ -709,6 +715,16 @@ HasRoom(h, k) ==
   IN /\ unsure = {} /\ {j \in held : h.reqs[j].bytes = << >>} = {}
      /\ Cardinality(pubs) < window /\ Cardinality(held) < 8
      /\ h.cfg.tx - HeldBytes(h, held) >= 5
+\* ... and the converse: a publish is accepted although the window is full -- the broker's Receive Maximum or the
+\* client's own eight exchanges, counting those that await their PUBCOMP (they keep their unit until then, also
+\* across a resumed reconnect).  One exchange too many and the PUBREL of a later PUBREC has no slot.
+OverCommitted(h, k) ==
+  LET cur == {j \in 1..Len(h.reqs) : j # k /\ h.reqs[j].ep = h.epoch /\ h.reqs[j].ph # "done"}
+      unsure == {j \in cur : h.reqs[j].st \in {"pend", "unk"}}
+      pubs == {j \in cur : h.reqs[j].st = "acc" /\ h.reqs[j].kind \in {"P1", "P2"}}
+      window == IF h.ack.have THEN h.ack.rm ELSE 8
+  IN unsure = {} /\ Cardinality(pubs) >= window
+AwaitingComp(h, k) == {j \in 1..Len(h.reqs) : j # k /\ h.reqs[j].ep = h.epoch /\ h.reqs[j].st = "acc" /\ h.reqs[j].ph = "rec"}
 Quiet(h, k) == {j \in 1..Len(h.reqs) : j # k /\ h.reqs[j].ep = h.epoch /\ h.reqs[j].ph # "done"
                                           /\ h.reqs[j].st # "ref"} = {}
 
@@ -770,11 +786,17 @@ RetRequest(h0, e) ==
                      THEN Viol(a, "C12", "a publish was refused as not ready although the window, the slots and the arena have room")
                      ELSE a
              ELSE IF k # 0 /\ h.reqs[k].kind \in {"P1", "P2"} THEN Tick2(h1, "C12", "C17") ELSE h1
+      over == k # 0 /\ r.k = "ok" /\ h.reqs[k].kind \in {"P1", "P2"} /\ h.taint = 0 /\ ~h.dcconn /\ OverCommitted(h, k)
+      why == "a publish was accepted although the window (Receive Maximum / eight exchanges, those awaiting PUBCOMP included) is full"
+      h1c == IF over
+             THEN LET a == Viol(Tick(h1b, "C06"), "C06", why)
+                  IN IF AwaitingComp(h, k) # {} THEN Viol(Tick(a, "C03"), "C03", why) ELSE a
+             ELSE h1b
   IN
   IF k = 0 THEN h1
   ELSE
   IF r.k = "ok" /\ r.h >= 0 THEN
-     [h1b EXCEPT !.reqs[k].st = IF @ = "pend" THEN "acc" ELSE @, !.reqs[k].hidx = r.h,
+     [h1c EXCEPT !.reqs[k].st = IF @ = "pend" THEN "acc" ELSE @, !.reqs[k].hidx = r.h,
                 !.hmap = Append(@, k)]
   ELSE IF r.k = "ok" THEN
      Viol(h1, "C18", "an identifier-bearing request returned no operation handle")
